@@ -22,20 +22,25 @@ import (
 
 // LinkFault is one fault on the proxy -> upstream link, bound to the n-th upstream call.
 type LinkFault struct {
-	Call int    `json:"call"`
-	Kind string `json:"kind"` // refuse (nothing delivered) | lost-response (processed upstream, answer lost) | 503 (synthetic, nothing delivered) | stall
+	Call int    `json:"call,omitempty"` // n-th upstream call of the run (when Step is 0)
+	Step int    `json:"step,omitempty"` // 1-based program step the fault lands in ...
+	Nth  int    `json:"nth,omitempty"`  // ... on its n-th upstream call
+	Kind string `json:"kind"`           // refuse (nothing delivered) | lost-response (processed upstream, answer lost) | 503 (synthetic, nothing delivered) | stall
 }
 
 // Upstream is the in-process transport the proxy backend's AWS SDK client uses: every SDK HTTP
 // request is serialised, served by the upstream gateway inside the calling task, and the answer
 // parsed back. No sockets, no real time.
 type Upstream struct {
-	E      *Env
-	Up     int
-	Calls  int
-	Faults []LinkFault
-	Fired  map[string]int
-	Log    []string
+	E     *Env
+	Up    int
+	Calls int
+	// Step / StepCalls: set by the check before each program step (1-based) / upstream calls made inside it
+	Step      int
+	StepCalls int
+	Faults    []LinkFault
+	Fired     map[string]int
+	Log       []string
 }
 
 type linkErr struct{ msg string }
@@ -50,9 +55,10 @@ func (u *Upstream) RoundTrip(r *http.Request) (*http.Response, error) {
 		return nil, errors.New("upstream call outside a simulated task")
 	}
 	u.Calls++
+	u.StepCalls++
 	kind := ""
 	for _, f := range u.Faults {
-		if f.Call == u.Calls {
+		if (f.Step == 0 && f.Call == u.Calls) || (f.Step > 0 && f.Step == u.Step && f.Nth == u.StepCalls) {
 			kind = f.Kind
 		}
 	}
